@@ -5,7 +5,7 @@ import grid as G
 from props.C09 import PT, prelude, FINE
 
 ASSUMPTIONS = ['unsigned reps: the RESULT is required to be exact; the library reaches it through a modular subtraction of the (negative) origin displacement cast to the unsigned rep, which is defined behaviour and is not flagged (an earlier version of this contract also demanded no unsigned wrap-around in intermediates: that was more than C10 states, a false alarm of the contract, removed)',
-               'type identity of CommonPointUnitT under permutation / repetition is a statement about types and is not decided here',
+               'type identity of CommonPointUnitT under permutation / repetition is a statement about types: no function contract expresses it; it is checked per unit set by supporting static probes (C10.static.*: all orderings and repetitions of four unit triples), reported separately and not counted as proved',
                'the scale m_i and offset c_i are read off the code itself (r_i(0), r_i(1) - r_i(0)); the contract then pins them against the independent '
                'unit sizes and origins by cross-consistency, because C10 promises SOME positive integer scale and non-negative offset, not particular ones']
 
@@ -60,4 +60,35 @@ def obligations(tier, seed):
                               twin=twin,
                               contract='forall %s x in [%d, %d]: r_i(x) == c_i + m_i * x; no UB:*' % (ct, lo, X),
                               functions_under_contract=('au::QuantityPoint::coerce_in (to CommonPointUnitT)',)))
+    # ---- supporting static facts: the TYPE of the common point unit is the same for every ordering and repetition of the inputs, and is one of the inputs whenever an
+    #      input already has that scale and origin.  Type identity is not expressible as a function contract; these probes decide it per unit set (all orderings, repetitions)
+    import itertools
+    SH = ('#include <type_traits>\n#include "au/au.hh"\n#include "au/units/kelvins.hh"\n#include "au/units/celsius.hh"\n#include "au/units/fahrenheit.hh"\n#include "au/units/meters.hh"\n'
+          '#include "au/units/seconds.hh"\n#define VF_STATIC_FACT(c) static_assert(c, "VF_STATIC_FACT")\nusing namespace au;\n'
+          'struct HalfCelsius : decltype(Kelvins{} / mag<2>()) { static constexpr auto origin() { return centi(kelvins)(27315); } static constexpr const char label[] = "half_degC"; };\n'
+          'constexpr const char HalfCelsius::label[];\n'
+          'struct DoubleKelvins200 : decltype(Kelvins{} * mag<2>()) { static constexpr auto origin() { return kelvins(200); } static constexpr const char label[] = "dblK200"; };\n'
+          'constexpr const char DoubleKelvins200::label[];\n')
+    sets = [('lib_temperatures', ['Celsius', 'Kelvins', 'Fahrenheit']),
+            ('same_magnitude_scaled_and_named', ['decltype(Kelvins{} * mag<2>())', 'decltype(HalfCelsius{} * mag<4>())', 'DoubleKelvins200']),
+            ('equal_scale_products', ['decltype(Kilo<Meters>{} * Milli<Seconds>{})', 'decltype(Meters{} * Seconds{})', 'decltype(Centi<Meters>{} * Hecto<Seconds>{})']),
+            ('scaled_kelvins', ['Kelvins', 'Milli<Kelvins>', 'decltype(Kelvins{} / mag<3>())'])]
+    for (nm, us) in sets:
+        L = ['using U0 = %s; using U1 = %s; using U2 = %s;' % tuple(us), 'using REF = CommonPointUnitT<U0, U1, U2>;']
+        for perm in itertools.permutations(range(3)):
+            L.append('VF_STATIC_FACT((std::is_same<REF, CommonPointUnitT<%s>>::value));   // ordering %s' % (', '.join('U%d' % k for k in perm), perm))
+        L.append('VF_STATIC_FACT((std::is_same<REF, CommonPointUnitT<U0, U1, U0, U2, U1>>::value));   // repetition')
+        L.append('VF_STATIC_FACT((std::is_same<REF, CommonPointUnitT<U2, U2, U1, U0>>::value));   // repetition')
+        L.append('VF_STATIC_FACT((std::is_same<CommonPointUnitT<U0, U1>, CommonPointUnitT<U1, U0>>::value));')
+        L.append('VF_STATIC_FACT((std::is_same<CommonPointUnitT<U0, U1>, CommonPointUnitT<U1, U0, U1>>::value));')
+        L.append('VF_STATIC_FACT((std::is_same<decltype(make_quantity_point<U0>(1) - make_quantity_point<U1>(1)), decltype(make_quantity_point<U1>(1) - make_quantity_point<U0>(1))>::value));')
+        obs.append(Ob(id='C10.static.type-identity.%s' % nm, prop='C10', group='C10.static', prelude='', wrappers=[], inputs=[], kind='S', body=SH + '\n'.join(L) + '\nint main() {}\n',
+                      contract='static facts: CommonPointUnitT over {%s} is the same type for all 6 orderings and under repetition; the type of a mixed-unit point difference does not depend on the operand order'
+                               % ', '.join(us), functions_under_contract=('au::CommonPointUnitT (compile-time)',)))
+    obs.append(Ob(id='C10.static.common-is-an-input', prop='C10', group='C10.static', prelude='', wrappers=[], inputs=[], kind='S',
+                  body=SH + 'VF_STATIC_FACT((std::is_same<CommonPointUnitT<Kelvins, Milli<Kelvins>>, Milli<Kelvins>>::value));\n'
+                            'VF_STATIC_FACT((std::is_same<CommonPointUnitT<Milli<Kelvins>, Kelvins, Milli<Kelvins>>, Milli<Kelvins>>::value));\n'
+                            'VF_STATIC_FACT((std::is_same<CommonPointUnitT<Celsius, Celsius>, Celsius>::value));\nint main() {}\n',
+                  contract='static facts: the common point unit IS one of the inputs when an input already has that scale and origin (Kelvins with milli-kelvins -> milli-kelvins; a unit with itself)',
+                  functions_under_contract=('au::CommonPointUnitT (compile-time)',)))
     return obs
